@@ -236,18 +236,12 @@ class Attribute:
 
         # count
         count = self.count
-        if count and count != 1:
+        if count is not None and count != 1:
+            # also for count 0 (empty list of values): the default count is 1, so 0 must be stated explicitly
             bts += write_struct_uvari(count)
             characteristics += '1'
         else:
-            if self._value is not None:
-                if count is not None and count > 1:
-                    bts += write_struct_uvari(count)
-                    characteristics += '1'
-                else:
-                    characteristics += '0'
-            else:
-                characteristics += '0'
+            characteristics += '0'
 
         # representation code
         if self.representation_code:
@@ -289,7 +283,7 @@ class Attribute:
         rc = self.representation_code
         value = self._value
 
-        if value is not None:
+        if value is not None and self.count != 0:
             if isinstance(value, (list, tuple)):
                 for val in self.flatten_list(value):
                     bts += write_struct(rc, val)
